@@ -551,6 +551,22 @@ pub fn run(prop: &str, max_slices: usize) -> WorldOutcome {
                     kernel::violation("C14", "stored:wrong-content", "block filed under the requested id has a different slice count".to_string());
                 }
             }
+            // every shred filed under the requested identifier is a shred of exactly that block
+            // (also while the block is still incomplete)
+            'outer: for k in 0..truth.blk.shreds.len() {
+                for i in 0..TOTAL_SHREDS {
+                    if let Some(s) = bs.get_shred(&truth.id, si(k), ShredIndex::new(i).expect("idx"))
+                        && wire::shred_bytes(s.as_shred()) != wire::shred_bytes(truth.blk.shreds[k][i].as_shred())
+                    {
+                        kernel::violation(
+                            "C14",
+                            "stored:foreign-shred",
+                            format!("shred {k}/{i} stored under the requested block identifier is not a shred of that block"),
+                        );
+                        break 'outer;
+                    }
+                }
+            }
             if dis_prefix {
                 // dissemination data of the slot is untouched by repair
                 for (i, s) in truth.other.shreds[0].iter().take(5).enumerate() {
